@@ -458,6 +458,85 @@ def degree_vectors(ctx):
     return kinds, details
 
 
+def edgecounts_method_protocol(ctx):
+    """EdgeCounts filled by `self.<field>[index] += 1` methods: classify each field by the walks at the methods' call sites.
+    Returns {"degree": {field: 'in'|'out'|'?'}, "ok", "desc", "where"} or None."""
+    fb, m, fl = ctx.fb, ctx.model, ctx.model.flow
+    degree = {}
+    desc = []
+    where = "-"
+    ok = True
+    for f in fb.fns.values():
+        if f.get("impl_self") != "edge_counts::EdgeCounts" or f.get("impl_trait"):
+            continue
+        mb = fb.bodies.get(f["id"])
+        if mb is None:
+            continue
+        for st in stores_through_index(mb):
+            v = st["value"]
+            if not (v.kind == "binop" and v[1] == "Add"):
+                continue
+            ce = strip_refs(expr_operand(mb, st["container"]))
+            if not (ce.kind == "field" and strip_refs(ce[1]) == E(("arg", 1)) and isinstance(ce[2], int)):
+                continue
+            fld = ce[2]
+            inc_ok = is_const(v[3], 1) or is_const(v[2], 1)
+            ie = strip_refs(expr_operand(mb, st["idx"]))
+            if ie.kind != "arg":
+                degree[fld] = "?"
+                continue
+            kinds_ = set()
+            sites = [(cb, cbb, ct) for (cb, cbb, ct) in fl.call_sites().get(mb.id, []) if not fb.is_test_body(cb)]
+            for cb, cbb, ct in sites:
+                where = m.where(cb, cbb)
+                idv = node_index_arg(expr_operand(cb, ct["args"][ie[1] - 1]))
+                k = "?"
+                if idv is not None:
+                    isrcs = sources_of_expr(ctx, cb, idv)
+                    walk = set()
+                    for s_ in isrcs:
+                        if s_.kind == "alloc" and s_[4] == CHILDREN and "$item" in s_[3]:
+                            walk.add("in")
+                        elif s_.kind == "alloc" and s_[4] == PARENTS and "$item" in s_[3]:
+                            walk.add("out")
+                        else:
+                            walk.add("?")
+                    if len(walk) == 1:
+                        k = list(walk)[0]
+                    if k != "?":
+                        okw, whyw = full_edge_walk(ctx, cb, cbb)
+                        if not okw or cond_guards(mb, st["bb"]):
+                            k = "?"
+                            desc.append(whyw)
+                kinds_.add(k if inc_ok else "?")
+            degree[fld] = list(kinds_)[0] if len(kinds_) == 1 else "?"
+            desc.append("field #%d bumped by %s: %s" % (fld, f["name"], degree[fld]))
+    if not degree:
+        return None
+    # every construction starts from zero-filled vectors
+    for b in fb.prod_bodies():
+        sgb = fb.fns.get(b.id) or {}
+        if sgb.get("impl_trait") in ("std::clone::Clone", "std::default::Default"):
+            continue        # copies of an existing value / the empty counts of an empty graph
+        if b.id == "edge_counts::EdgeCounts::new" and not [1 for (cb_, _, _) in fl.call_sites().get(b.id, []) if not fb.is_test_body(cb_)]:
+            continue        # constructor from caller-supplied vectors, unused by the library itself
+        for bb, si, s_ in b.stmts():
+            if s_["k"] == "assign" and s_["rv"]["k"] == "agg" and s_["rv"].get("def") == "edge_counts::EdgeCounts":
+                for o in s_["rv"]["ops"]:
+                    srcs = fl.sources_operand(b, o)
+                    z = bool(srcs) and all(x.kind == "alloc" and x[4] == "std::vec::from_elem" for x in srcs)
+                    if z:
+                        for x in srcs:
+                            t0 = fb.bodies[x[1]].blocks[x[2]]["term"]
+                            if not is_const(strip_refs(expr_operand(fb.bodies[x[1]], t0["args"][0])), 0):
+                                z = False
+                    if not z and b.id != "edge_counts::EdgeCounts::new":
+                        ok = False
+                        desc.append("a field of EdgeCounts is not constructed as vec![0; n]")
+    ok = ok and sorted(degree.values()) == ["in", "out"]
+    return {"degree": degree, "ok": ok, "desc": "; ".join(desc), "where": where}
+
+
 def full_raw_edge_walk(ctx, body, bb):
     """the store at bb runs once for every element of raw_edges(): body of an
     unfiltered `for`/for_each over it, unconditional, no early exit"""
@@ -565,7 +644,15 @@ def S1(ctx, rule="S1"):
     field_degree = {}   # field index -> 'in'/'out'
     newb = fb.bodies.get("edge_counts::EdgeCounts::new")
     if not new_sites or newb is None:
-        ctx.unverifiable(rule, "edgecounts-new", "-", "no production call of EdgeCounts::new found")
+        # no `EdgeCounts::new(in, out)`: the counts may be filled through methods of EdgeCounts that bump one entry of a field
+        fd = edgecounts_method_protocol(ctx)
+        if fd:
+            field_degree.update(fd["degree"])
+            ctx.check(fd["ok"], rule, "degree-vectors|EdgeCounts-methods", fd["where"],
+                      "EdgeCounts starts zeroed and its fields are bumped once per edge visit: %s" % fd["desc"],
+                      "EdgeCounts fields are not one in-degree and one out-degree vector: %s" % fd["desc"])
+        else:
+            ctx.unverifiable(rule, "edgecounts-new", "-", "no production call of EdgeCounts::new found")
     for (b, bb, t) in new_sites:
         argkind = []
         for ai, a in enumerate(t["args"]):
@@ -1973,10 +2060,14 @@ def S6(ctx, rule="S6", roles_filter=None):
         if roles_filter is not None and role not in roles_filter:
             continue
         key = "%s|%s" % (role, short(b.id))
-        if callee_path(t).endswith("unbounded_channel"):
+        if (callee_path(t) or "").endswith("unbounded_channel"):
             ctx.ok(rule, key, where, "%s channel is unbounded" % role)
             continue
-        e = expr_operand(b, t["args"][0])
+        capop = getattr(m, "channel_cap", {}).get((b.id, bb))
+        if capop is None:
+            ctx.unverifiable(rule, key, where, "capacity of the %s channel not found (allocated through a wrapper)" % role)
+            continue
+        e = expr_operand(b, capop)
         ok, g = monotone_of_node_count(ctx, b, e)
         if ok:
             gs = sources_of_expr(ctx, b, g)
